@@ -111,4 +111,27 @@ PROPS = {
         "level_text": "Lean theorems C13_pairs/C13_addrs (generator output = per-line expectation of the lines handled, for every list of lines), C13_filter_stage/C13_cache_stage/C13_errors_survive (optional stages are per-request and pass errors through untouched, for every request list), C13_pipeline_* (the composition the commands build). Tied to the code by running the real generators, the real --exclude parser and the real ARP-cache stage on generated target files (gen component), with the Spec reference evaluated on the observed requests.",
         "level_note": "Trusted: Lean kernel; the line classifier abstraction of easyjson/bufio (validated by the harness writing real JSONL text for every class, incl. textual variants); channel plumbing is M-conc's concern (a stage is its list function).",
     },
+    "C01": {
+        "modules": ["SxVerif.Props.C01"],
+        "components": ["gen"],
+        "trusted_base": [
+            "modelled, not verified: generators as the list they send before closing (channel plumbing is M-conc, C07/C08); cidranger as list membership; net.ParseIP / easyjson / bufio as a line classifier; os.Stdin through the buffering opener as a constant file",
+            "chunk loop of startPortScanEngine tied by sxfacts (loop header, body statements and the empty-ranges branch are matched textually; any other shape is a translator problem that breaks Props/C01.translator_clean)",
+        ],
+        "assumptions": ["'puts on the wire' is closed by C07 (packet commands) and C08 (application commands): this check proves coverage at the request stream",
+                        "a regular file yields the same content on every open"],
+        "level_text": "Lean theorems C01_port_scan / C01_generic / C01_ip_scan / C01_chunks: for every valid specification (any subnet /0../32, any valid port-range list with any number of chunks, pairs file, address file x ranges incl. stdin), every exclusion list, every ARP cache and every family of random draws, the engine runs of one pass request exactly the denoted (address, port) multiset minus exclusions (List.Perm), built on C04's permutation theorem. chunkSize and the empty-ranges branch are regenerated from root.go each run. The generator models are tied to the code by running the real newIPPortGenerator compositions and whole ScanMethods (down to frames) on generated specifications.",
+        "level_note": "Trusted: Lean kernel + Mathlib (via C04); sxfacts for the loop shape; correspondence of hand-written generator models validated by sxdiff gen (differential, multiset level for randomised orders).",
+    },
+    "C02": {
+        "modules": ["SxVerif.Props.C02"],
+        "components": ["netparse", "gen"],
+        "trusted_base": [
+            "modelled, not verified: net.ParseCIDR / netip.ParseAddr for colon-free input (go1.23 parseIPv4Fields, dtoi) as Model/Net.lean; IPv6 parsing is not modelled at all (refused up front by the colon test)",
+            "cidranger PCTrie as list membership after To4 normalisation",
+        ],
+        "assumptions": ["every textual IPv6 form contains ':' (RFC 4291 text representation)"],
+        "level_text": "Lean theorems: C02_ipv6_refused (any string with a colon is refused), C02_parse_exact (an accepted target is a 4-byte network equal to what the string denotes by an independent decimal/split reader), round trips for all 2^32 hosts x 33 prefixes, C02_no_panic (the address generator neither fails nor reaches its FillBytes panic on any accepted target), C02_confined_* (every probe of every engine run, for ANY target-file content, goes to a source address that is not excluded, on a requested port) and C02_exclusion_exact (the filter's membership test is exactly block membership). Tied to the code by the real ip.ParseIPNet on grammar-generated strings and the real generators + real --exclude parser + cidranger.",
+        "level_note": "Trusted: Lean kernel + Mathlib (via C04); the stdlib model for colon-free strings is validated differentially on every run, not proved.",
+    },
 }
